@@ -7,6 +7,7 @@
 package main
 
 import (
+	"sync/atomic"
 	"bufio"
 	"bytes"
 	"encoding/json"
@@ -278,6 +279,9 @@ func crashSignature(stderr string, exitCode int, killedFor string) string {
 	return sig + "/" + frame
 }
 
+// cpuBudgetDeaths counts, over all chunks of a run, the cases that were killed for using up the CPU budget.
+var cpuBudgetDeaths atomic.Int64
+
 // runRange runs cases [from,to) in worker processes, restarting after deaths.
 func runRange(bo buildOut, m meta, tier string, seed int64, from, to int, tag string) chunkResult {
 	var cr chunkResult
@@ -285,6 +289,12 @@ func runRange(bo buildOut, m meta, tier string, seed int64, from, to int, tag st
 	fineUntil := -1
 	attempt := 0
 	for cur < to {
+		if n := cpuBudgetDeaths.Load(); n >= 6 {
+			// Cases that use up the CPU budget cost minutes each.  After six of them in one run the verdict is
+			// settled (each is a reported violation); the rest of the range is left unexplored, and says so.
+			cr.blocks = append(cr.blocks, core.Block{From: cur, To: cur, Events: map[string]int64{"cases_not_run_after_six_cpu_budget_deaths": int64(to - cur)}})
+			return cr
+		}
 		attempt++
 		if attempt > 400 {
 			cr.infra = append(cr.infra, fmt.Sprintf("more than 400 worker restarts in chunk %s", tag))
@@ -434,6 +444,9 @@ func runRange(bo buildOut, m meta, tier string, seed int64, from, to int, tag st
 			desc = strings.TrimRight(string(out), "\n")
 		}
 		sig := crashSignature(stderr, exitCode, killedFor)
+		if killedFor == "cpu-budget" {
+			cpuBudgetDeaths.Add(1)
+		}
 		cr.crashes = append(cr.crashes, core.Failure{
 			Class:  m.ID + "/crash/" + sig,
 			Input:  desc,
